@@ -148,7 +148,13 @@ func ruleR04k(c *Ctx) {
 	c.floor("R04k", "closing loops in visitPrint", 1, nClose)
 	// the implicit escapeHtml is appended at the tail
 	nEsc := 0
-	ast.Inspect(fj.Body, func(x ast.Node) bool {
+	escScope := &ast.BlockStmt{}
+	for _, hd := range c.withHelpers("soyjs", fj, 2) {
+		if hd == fj || takesNodeType(c, "soyjs", hd.Body, "PrintNode") {
+			escScope.List = append(escScope.List, hd.Body)
+		}
+	}
+	ast.Inspect(escScope, func(x ast.Node) bool {
 		call, ok := x.(*ast.CallExpr)
 		if !ok {
 			return true
